@@ -131,6 +131,9 @@ func main() {
 			case "funcn": // ext_k19.go: funcm over an abstract number type (float64 -> `F`, `ops : NumOps F`)
 				text, err = genFuncN(p, e)
 				monadic[e.module] = true
+			case "funcq": // wp k01dec (ext_k01dec.go): funcm with the object types of the QR decoder
+				text, err = k01decGenFunc(p, e)
+				monadic[e.module] = true
 			default:
 				err = fmt.Errorf("unknown kind %s", e.kind)
 			}
